@@ -12,6 +12,7 @@ import (
 	"bytes"
 	"flag"
 	"fmt"
+	"io"
 	"net"
 	"os"
 	"regexp"
@@ -48,6 +49,7 @@ type connInfo struct {
 	fdClosed   bool
 	closeErr   string
 	inCallback bool
+	faulted    bool // an errno was injected on this connection
 }
 
 type state struct {
@@ -253,15 +255,15 @@ func runProgram(kind string, c gnet.Conn, ci *connInfo) (out []byte, action gnet
 			if out == nil {
 				out = []byte{}
 			}
-			if ci != nil {
-				ci.accepted = append(ci.accepted, out...)
-			}
 			continue
 		}
 		res := runHop(kv[0], arg, c, ci)
 		st.log = append(st.log, "hop "+h+" -> "+res)
 	}
 	if kind == "open" {
+		if ci != nil { // the reply of OnOpen takes effect when the callback returns
+			ci.accepted = append(ci.accepted, out...)
+		}
 		st.log = append(st.log, fmt.Sprintf("ret out=%s action=%d", hexOrNil(out), action))
 	} else {
 		st.log = append(st.log, fmt.Sprintf("ret action=%d", action))
@@ -287,7 +289,7 @@ func consume(ci *connInfo, what string, data []byte) {
 }
 
 func checkBuffered(c gnet.Conn, ci *connInfo) {
-	if ci == nil || st.proto == "udp" {
+	if ci == nil || st.proto == "udp" || ci.closedCB > 0 || ci.fdClosed {
 		return
 	}
 	if got := len(ci.consumed) + c.InboundBuffered(); got != ci.delivered {
@@ -296,6 +298,14 @@ func checkBuffered(c gnet.Conn, ci *connInfo) {
 	if got := len(ci.toKernel) + c.OutboundBuffered(); got != len(ci.accepted) && !ci.fdClosed {
 		fail(fmt.Sprintf("C02: handed to kernel %d + OutboundBuffered %d != accepted %d on %s", len(ci.toKernel), c.OutboundBuffered(), len(ci.accepted), ci.cid))
 	}
+}
+
+// healthy: a write operation must not fail on a connection whose peer is alive and on which no fault was injected
+func healthy(ci *connInfo, what string, err error) {
+	if ci.finSent || ci.faulted {
+		return
+	}
+	fail(fmt.Sprintf("C02: %s failed with %v on %s although its peer is alive and no fault was injected", what, err, ci.cid))
 }
 
 func runHop(op, arg string, c gnet.Conn, ci *connInfo) string {
@@ -344,15 +354,19 @@ func runHop(op, arg string, c gnet.Conn, ci *connInfo) string {
 		return fmt.Sprintf("n=%d", c.OutboundBuffered())
 	case "write":
 		p := util.UnHex(arg)
-		open := ci != nil && !ci.fdClosed
+		open := ci != nil && !ci.fdClosed && ci.closedCB == 0
+		mark := 0
+		if open { // the bytes count as accepted while the call runs (it may hand them to the kernel at once)
+			mark = len(ci.accepted)
+			ci.accepted = append(ci.accepted, p...)
+		}
 		n, err := c.Write(p)
-		if ci != nil && open && err == nil {
-			ci.accepted = append(ci.accepted, p[:n]...)
-			if n != len(p) {
-				fail(fmt.Sprintf("C02: Write(%d bytes) = %d without error on %s", len(p), n, ci.cid))
-			}
-		} else if ci != nil && open && err != nil && n > 0 {
-			ci.accepted = append(ci.accepted, p[:n]...)
+		if open && err != nil {
+			ci.accepted = ci.accepted[:mark+n]
+			healthy(ci, "Write", err)
+		}
+		if open && err == nil && n != len(p) {
+			fail(fmt.Sprintf("C02: Write(%d bytes) = %d without error on %s", len(p), n, ci.cid))
 		}
 		return fmt.Sprintf("n=%d err=%s", n, errName(err))
 	case "writev":
@@ -363,13 +377,19 @@ func runHop(op, arg string, c gnet.Conn, ci *connInfo) string {
 			bs = append(bs, b)
 			all = append(all, b...)
 		}
-		open := ci != nil && !ci.fdClosed
-		n, err := c.Writev(bs)
-		if ci != nil && open && err == nil {
+		open := ci != nil && !ci.fdClosed && ci.closedCB == 0
+		mark := 0
+		if open {
+			mark = len(ci.accepted)
 			ci.accepted = append(ci.accepted, all...)
-			if n != len(all) {
-				fail(fmt.Sprintf("C02: Writev(%d bytes) = %d without error on %s", len(all), n, ci.cid))
-			}
+		}
+		n, err := c.Writev(bs)
+		if open && err != nil {
+			ci.accepted = ci.accepted[:mark+n]
+			healthy(ci, "Writev", err)
+		}
+		if open && err == nil && n != len(all) {
+			fail(fmt.Sprintf("C02: Writev(%d bytes) = %d without error on %s", len(all), n, ci.cid))
 		}
 		return fmt.Sprintf("n=%d err=%s", n, errName(err))
 	case "writeto":
@@ -391,6 +411,19 @@ func runHop(op, arg string, c gnet.Conn, ci *connInfo) string {
 		}
 		if int(n) != r.Delivered {
 			fail(fmt.Sprintf("C02: ReadFrom reported %d, reader delivered %d", n, r.Delivered))
+		}
+		return fmt.Sprintf("n=%d err=%s", n, errName(err))
+	case "readbulk": // a reader that delivers whatever is asked for until `arg` bytes were delivered, then (0, EOF)
+		start := st.freshPos
+		r := &bulkReader{left: atoi(arg), pos: &st.freshPos}
+		n, err := c.ReadFrom(r)
+		if ci != nil {
+			for i := 0; i < r.delivered; i++ {
+				ci.accepted = append(ci.accepted, util.Fresh(start+i))
+			}
+		}
+		if int(n) != r.delivered {
+			fail(fmt.Sprintf("C02: ReadFrom reported %d, reader delivered %d", n, r.delivered))
 		}
 		return fmt.Sprintf("n=%d err=%s", n, errName(err))
 	case "flush":
@@ -417,6 +450,29 @@ func runHop(op, arg string, c gnet.Conn, ci *connInfo) string {
 		return fmt.Sprintf("remote=%v", c.RemoteAddr())
 	}
 	return "bad-hop"
+}
+
+type bulkReader struct {
+	left      int
+	pos       *int
+	delivered int
+}
+
+func (r *bulkReader) Read(p []byte) (int, error) {
+	if r.left == 0 {
+		return 0, io.EOF
+	}
+	m := len(p)
+	if m > r.left {
+		m = r.left
+	}
+	for i := 0; i < m; i++ {
+		p[i] = util.Fresh(*r.pos + i)
+	}
+	*r.pos += m
+	r.left -= m
+	r.delivered += m
+	return m, nil
 }
 
 // asynchronous writes take effect when their task runs: the driver appends them to `accepted`
@@ -618,6 +674,15 @@ func newLoop(ws []string) string {
 	case "udp":
 		st.addr = "udp://127.0.0.1:0"
 	}
+	loop, err := gnet.NewVerifLoop(&handler{}, []string{st.addr}, opts...)
+	if err != nil {
+		return "bad-loop:" + err.Error()
+	}
+	st.loop = loop
+	for i, fd := range loop.ListenerFds() {
+		st.names[fd] = fmt.Sprintf("L%d", i)
+	}
+	st.log = nil
 	vsys.Set(record, func(call string, fd int) vsys.Directive {
 		key := call + "@" + nameOf(fd)
 		for _, k := range []string{key, call + "@*"} {
@@ -628,15 +693,6 @@ func newLoop(ws []string) string {
 		}
 		return vsys.Directive{}
 	})
-	loop, err := gnet.NewVerifLoop(&handler{}, []string{st.addr}, opts...)
-	if err != nil {
-		return "bad-loop:" + err.Error()
-	}
-	st.loop = loop
-	for i, fd := range loop.ListenerFds() {
-		st.names[fd] = fmt.Sprintf("L%d", i)
-	}
-	st.log = nil // setup calls (epoll_ctl add of the listener) are not part of the trace
 	vs.Activate(true)
 	ready := make(chan struct{})
 	go func(s *state) {
@@ -682,6 +738,14 @@ func step(ws []string) string {
 			d.N = atoi(ws[4])
 		} else {
 			d.Errno = errnoOf(ws[4])
+			if ci := st.conns[ws[2]]; ci != nil {
+				ci.faulted = true
+			}
+			if ws[2] == "*" {
+				for _, ci := range st.conns {
+					ci.faulted = true
+				}
+			}
 		}
 		st.directive[key] = append(st.directive[key], d)
 		return "ok"
@@ -793,6 +857,35 @@ func step(ws []string) string {
 		return "ok @@ err=" + errName(err)
 	case "stop":
 		return "ok @@ err=" + errName(st.loop.Shutdown())
+	case "drain": // drain <cid>: the peer reads everything while the loop keeps running, until nothing moves
+		ci := st.conns[ws[1]]
+		if ci == nil || ci.peer == nil {
+			return "bad-op"
+		}
+		var rounds []string
+		idle := 0
+		for i := 0; i < 400 && idle < 3 && !st.exited; i++ {
+			buf := make([]byte, 1<<20)
+			_ = ci.peer.SetReadDeadline(time.Now().Add(5 * time.Millisecond))
+			n, _ := ci.peer.Read(buf)
+			ci.peerGot = append(ci.peerGot, buf[:n]...)
+			r := step([]string{"poll"})
+			r = strings.TrimSuffix(r, " @@=")
+			rounds = append(rounds, r)
+			if n == 0 && strings.HasPrefix(r, "idle") {
+				idle++
+			} else {
+				idle = 0
+			}
+		}
+		if len(ci.peerGot) > len(ci.toKernel) || !bytes.Equal(ci.toKernel[:len(ci.peerGot)], ci.peerGot) {
+			fail(fmt.Sprintf("C02: peer of %s received bytes that were not handed to the kernel in that order", ci.cid))
+		}
+		// C02: accepted data never remains unsent forever while the peer is willing to read
+		if ci.closedCB == 0 && !ci.fdClosed && !st.exited && len(ci.peerGot) != len(ci.accepted) {
+			fail(fmt.Sprintf("C02: %s stays open, its peer read everything it could get, yet only %d of %d accepted bytes arrived (OutboundBuffered=%d)", ci.cid, len(ci.peerGot), len(ci.accepted), len(ci.accepted)-len(ci.toKernel)))
+		}
+		return strings.Join(rounds, " || ") + " @@="
 	case "poll":
 		if st.exited {
 			return "exited"
